@@ -36,7 +36,6 @@ ID = "C15"
 A000311 = {1: 1, 2: 1, 3: 4, 4: 26, 5: 236, 6: 2752, 7: 39208, 8: 660032}
 A000669 = {1: 1, 2: 1, 3: 2, 4: 5, 5: 12, 6: 33, 7: 90, 8: 261}
 
-UNIFORM_MAX = {"quick": 20, "thorough": 23}
 
 
 # ------------------------------------------------------------------------------------------- reference
@@ -427,21 +426,49 @@ def run_shape(case, ctx):
 
 
 def run_big(case, ctx):
+    """Big-integer ranks.  tskit's unrank costs (sum over non-root subtrees of their shape rank) loop iterations
+    (Combination.with_replacement_unrank), so inputs are drawn from regimes where that sum is bounded: uniform
+    ranks for n <= 15/16, low shape ranks or root-capped random topologies (subtrees <= 12/13 leaves) up to n = 60."""
     rng = case_rng(case)
     tier = case["tier"]
-    uniform = rng.random() < 0.7
-    if uniform:
-        n = rng.randint(8, UNIFORM_MAX[tier])
+    mode = rng.choice(["uniform", "uniform", "low", "topo", "topo"])
+    umax = 15 if tier == "quick" else 16
+    cap = 12 if tier == "quick" else 13
+    ctx.feature("big:" + mode)
+    f_src = None
+    if mode == "uniform":
+        n = rng.randint(8, umax)
         S = ref_num_shapes(n)
         s = rng.choice([rng.randrange(S)] * 6 + [0, S - 1, rng.randrange(min(S, 50)),
                                                  S - 1 - rng.randrange(min(S, 50))])
-    else:
-        n = rng.randint(21, 60)
+    elif mode == "low":
+        n = rng.randint(umax + 1, 60)
         S = ref_num_shapes(n)
         s = rng.randrange(min(S, 3000))
-    ctx.feature("big:uniform" if uniform else "big:low-shape-rank")
+    else:
+        n = rng.randint(umax + 1, 60)
+        S = ref_num_shapes(n)
+        par = random_topology(rng, n, n, cap=cap)
+        ts, m = rebuild(rng, [(par, n)], n)
+        _, kids = forest_of(ts, 0)
+        root = [u for u in kids if u not in forest_of(ts, 0)[0]][0]
+        f_src = canon(kids, root)
+        ctx.count("rank-of-random-topology")
+        try:
+            r = tuple(ts.first().rank())
+        except Exception as e:
+            ctx.violation("rank/raises-on-valid-tree", f"rank() raised {type(e).__name__}: {e} on {fmt(f_src)}",
+                          {"model": m.to_json()})
+            return
+        Lsrc = math.factorial(n) // aut(shape_of(f_src))
+        if not (0 <= r[0] < S and 0 <= r[1] < Lsrc):
+            ctx.violation("rank/out-of-range",
+                          f"rank() = {r} for {fmt(f_src)}: n={n} has {S} shapes and this shape n!/|Aut| = {Lsrc} "
+                          f"labellings", {"model": m.to_json()})
+            return
+        s = r[0]
     ctx.feature(f"n:{n // 10 * 10}-{n // 10 * 10 + 9}")
-    ctx.sig(("big", n, s), nontrivial=True)
+    ctx.sig(("big", n, s, mode), nontrivial=True)
     try:
         t0 = tskit.Tree.unrank(n, (s, 0))
     except Exception as e:
@@ -453,9 +480,14 @@ def run_big(case, ctx):
         return
     sh = shape_of(f0)
     L = math.factorial(n) // aut(sh)
-    ls = sorted({0, L - 1, rng.randrange(L), rng.randrange(L), rng.randrange(min(L, 100))})
+    ls = {0, L - 1, rng.randrange(L), rng.randrange(L), rng.randrange(min(L, 100))}
+    if f_src is not None:
+        ls = {r[1], L - 1, rng.randrange(L)}
+        if shape_of(f_src) != sh:
+            ctx.violation("unrank/roundtrip", f"Tree.unrank({n}, ({s}, 0)) has another shape than {fmt(f_src)} "
+                                              f"whose rank() is {r}")
     seen = {}
-    for l in ls:
+    for l in sorted(ls):
         kw = {"span": 4, "branch_length": 0.5} if l % 3 == 1 else {}
         try:
             t = tskit.Tree.unrank(n, (s, l), **kw)
@@ -468,23 +500,26 @@ def run_big(case, ctx):
             continue
         ctx.count("unrank-rank-roundtrip")
         ctx.count("unrank-rank-roundtrip:big")
-        r = tuple(t.rank())
-        if r != (s, l):
-            ctx.violation("rank/roundtrip", f"Tree.unrank({n}, ({s}, {l})).rank() = {r}; tree {fmt(f)}")
+        rr = tuple(t.rank())
+        if rr != (s, l):
+            ctx.violation("rank/roundtrip", f"Tree.unrank({n}, ({s}, {l})).rank() = {rr}; tree {fmt(f)}")
         if shape_of(f) != sh:
             ctx.violation("unrank/shape-depends-on-label",
                           f"Tree.unrank({n}, ({s}, {l})) has a different shape from label rank 0")
         if f in seen:
             ctx.violation("unrank/not-injective", f"Tree.unrank({n}, ({s}, {seen[f]})) == Tree.unrank({n}, ({s}, {l}))")
         seen[f] = l
-    for why, r in (("label rank == number of labellings", (s, L)),
+        if f_src is not None and l == r[1] and f != f_src:
+            ctx.violation("unrank/roundtrip", f"Tree.unrank({n}, {r}) = {fmt(f)} but rank() of {fmt(f_src)} is {r}")
+    for why, q in (("label rank == number of labellings", (s, L)),
                    ("label rank beyond", (s, L + rng.randrange(10 ** 6))),
                    ("negative label", (s, -1 - rng.randrange(5))), ("negative shape", (-1, rng.randrange(L)))):
-        expect_out_of_range(ctx, n, r, f"{why}; shape {s} of n={n} has n!/|Aut| = {L} labellings")
-    if uniform:
-        for why, r in (("shape rank == number of shapes", (S, 0)),
+        expect_out_of_range(ctx, n, q, f"{why}; shape {s} of n={n} has n!/|Aut| = {L} labellings")
+    if n <= 24:
+        for why, q in (("shape rank == number of shapes", (S, 0)),
                        ("shape rank beyond", (S + rng.randrange(10 ** 6), 0))):
-            expect_out_of_range(ctx, n, r, f"{why}; n={n} has {S} shapes")
+            expect_out_of_range(ctx, n, q, f"{why}; n={n} has {S} shapes")
+    if mode == "uniform":
         # a different shape rank gives a different shape
         s2 = rng.randrange(S)
         if s2 != s:
@@ -555,26 +590,34 @@ def rebuild(rng, trees, n, junk=None, unsquashed=False):
     return to_ts(m), m
 
 
-def random_topology(rng, n, first_internal):
-    """Random rooted tree on leaves 0..n-1 with polytomies, no unary nodes: {child: parent}."""
+def random_topology(rng, n, first_internal, cap=None):
+    """Random rooted tree on leaves 0..n-1 with polytomies, no unary nodes: {child: parent}.  With `cap`, every
+    subtree below the root has at most `cap` leaves (bounds the cost of tskit's unrank, see META ASSUMPTIONS)."""
     nxt = [first_internal]
     par = {}
 
-    def build(labels):
+    def build(labels, top=False):
         if len(labels) == 1:
             return labels[0]
-        k = rng.choice([2, 2, 2, 3, 4, len(labels)])
-        k = max(2, min(k, len(labels)))
         rng.shuffle(labels)
-        cuts = sorted(rng.sample(range(1, len(labels)), k - 1))
-        parts = [labels[i:j] for i, j in zip([0] + cuts, cuts + [len(labels)])]
+        if top and cap is not None and len(labels) > cap:
+            parts, i = [], 0
+            while i < len(labels):
+                k = rng.randint(1, cap)
+                parts.append(labels[i:i + k])
+                i += k
+        else:
+            k = rng.choice([2, 2, 2, 3, 4, len(labels)])
+            k = max(2, min(k, len(labels)))
+            cuts = sorted(rng.sample(range(1, len(labels)), k - 1))
+            parts = [labels[i:j] for i, j in zip([0] + cuts, cuts + [len(labels)])]
         me = nxt[0]
         nxt[0] += 1
         for part in parts:
             par[build(part)] = me
         return me
 
-    build(list(range(n)))
+    build(list(range(n)), top=True)
     return par
 
 
